@@ -61,6 +61,14 @@ def sysStep (st : SysSt) (tok : String) : Option SysSt :=
     let rows := st.sys.read none
     if st.ids then some { st with out := ("QA=" ++ showIds (rows.map (·.id))) :: st.out } else
     some { st with out := ("QA=" ++ showPairs (rows.map fun e => (e.key, tagBits e.id))) :: st.out }
+  | ["T", c, dir, lim, off] => do
+    -- ORDER BY k [DESC] LIMIT lim OFFSET off, unscoped ("*") or FOR c: keys in answer order
+    let q ← if c == "*" then some none else (unhex c).map some
+    let asc ← if dir == "a" then some true else if dir == "d" then some false else none
+    let lim ← lim.toNat?
+    let off ← off.toNat?
+    let rows := st.sys.readTop q asc lim off
+    some { st with out := ("T=[" ++ ",".intercalate (rows.map fun e => toString e.key) ++ "]") :: st.out }
   | ["W"] =>
     if st.ids then some { st with out := ("W=" ++ showPlaced st.sys) :: st.out } else
     some { st with out := ("W=" ++ showPairs (whereAll st.sys)) :: st.out }
